@@ -27,6 +27,15 @@ inline void init_engine(bool seeded = true)
     if (done) return;
     done = true;
     if (seeded) engine::verif::zobrist_seed = uint64_t(opt_int("zseed", 1)) * 0x9E3779B97F4A7C15ULL + 12345;
+    // entropy window (hex mask): every Zobrist key is zero outside it, so all positions agree on those key bits while
+    // their full keys still differ; exposes tables that index or verify with only part of the key
+    if (seeded && !opt("zmask").empty())
+    {
+        engine::verif::zobrist_mask = strtoull(opt("zmask").c_str(), nullptr, 16);
+        // outside the window every key has the same non-zero bits, so a position key is 0 or that constant there depending
+        // on the parity of the number of keys XORed into it (an all-zero truncated key would look like an empty table slot)
+        engine::verif::zobrist_fill = 0xA5C3E1B2D4F60789ULL;
+    }
     engine::move_bitboards::init();
     engine::zobrist::init();
     engine::bitbase::init();
